@@ -29,7 +29,7 @@ func init() {
 				"R6.1 entropy copy: in every Generator implementation of the library, every return of a non-nil password is preceded by a store of Entropy() — called on the receiver copy — into that password's Entropy field, and Generate stores to no recipe field",
 				"R6.2 ledger agreement: addends of WLRecipe.Entropy() = documented terms (shared with C08/R8.3); the set of schemes with a bonus term equals the set of schemes for which Generate draws; bounds of those draws match the terms (2 per position / Length once / Size per word); separator entropy multiplied by Length-1 = number of separator calls",
 				"R6.3 gate: capitalisation addends are control-dependent on isAllCapitalizable() == true, which is count == 0, and the count stored by NewWordList counts exactly the kept words with strings.Title(w) == w over the final key set (= C08 R8.2)",
-				"R6.5 generator side: every draw routine is a schema instance (= C01 R1.1-R1.3 re-run; a biased draw makes some password likelier than 2^-Entropy while the formula is untouched)",
+				"R6.5 generator side: every draw routine is a schema instance (= C01 R1.1-R1.3 re-run; a biased draw makes some password likelier than 2^-Entropy while the formula is untouched) and the alphabet the character draws index is the list of members of a set (= C02 R2.1 re-run; a character listed twice is drawn twice as often while log2 of the set size is reported)",
 				"R6.4 character recipe: Entropy() calls the same builder as Generate on its own copy; simple term entropySimple(Length, len(alphabet)) iff the required sets are empty, else the required-sets count on the same copy",
 			},
 			Trusted:    append([]string{"C01/C02/C04 (draws uniform and independent)", "math.Log2"}, commonTrusted...),
@@ -129,6 +129,7 @@ func runC06(p *core.Program, r *core.Report) {
 
 	// R6.5 generator side: the bound is only meaningful if the draws are uniform
 	checkDrawRoutines(p, r, "R6.5", "R6.5", "R6.5")
+	checkAlphabetProvenance(p, r, "R6.5")
 }
 
 // checkDrawTermAgreement: schemes with a bonus in Entropy == schemes that draw in Generate, with matching bounds.
